@@ -3,6 +3,7 @@ package main
 import (
 	"fmt"
 	"go/constant"
+	"go/token"
 	"go/types"
 	"sort"
 	"strings"
@@ -22,6 +23,8 @@ type CEnv struct {
 	reads   map[string]bool
 	readIdx map[string][]string // heap key -> index terms read in the current state
 	inOld   bool
+	prevs   map[int]*State // loop ordinal -> state at that loop's head
+	outer   *CEnv          // inside prev(K, ...): the enclosing environment (now(e))
 }
 
 func (env *CEnv) noteRead(key string, idx Term) {
@@ -90,7 +93,7 @@ func (w *World) contractEnv(fr *Frame, cur, old *State) *CEnv {
 	if p := pkgOf(fr.fn); p != nil {
 		pkg = p.Pkg
 	}
-	return &CEnv{w: w, pkg: pkg, vars: vars, cur: cur, old: old, fr: fr, lets: lets}
+	return &CEnv{w: w, pkg: pkg, vars: vars, cur: cur, old: old, fr: fr, lets: lets, prevs: fr.loopHeads}
 }
 
 func pkgOf(fn *ssa.Function) *ssa.Package {
@@ -394,6 +397,9 @@ func (w *World) localByName(env *CEnv, name string) *Val {
 	}
 	n := 0
 	fr := env.fr
+	if fr.top {
+		want = w.realNameOf(want)
+	}
 	for _, b := range fr.fn.Blocks {
 		for _, ins := range b.Instrs {
 			a, ok := ins.(*ssa.Alloc)
@@ -515,6 +521,9 @@ func (w *World) isLet(env *CEnv, name string) bool {
 func (w *World) localByNameExists(env *CEnv, name string) bool {
 	if env.fr == nil {
 		return false
+	}
+	if env.fr.top {
+		name = w.realNameOf(name)
 	}
 	for _, b := range env.fr.fn.Blocks {
 		for _, ins := range b.Instrs {
@@ -691,6 +700,52 @@ func (w *World) evalCall(env *CEnv, e *CExpr) *Val {
 		n := *env
 		n.inOld = true
 		return w.eval(&n, args[0])
+	case "ranged":
+		// ranged(K): the slice loop K ranges over
+		if len(args) != 1 || args[0].Op != "lit.int" || env.fr == nil || env.fr.loops == nil {
+			unsupported("ranged(K) takes a loop ordinal")
+		}
+		for h, k := range env.fr.loops.isHeader {
+			if k != int(args[0].Int) || h.Comment != "rangeindex.loop" {
+				continue
+			}
+			for _, ins := range h.Instrs {
+				cmp, ok := ins.(*ssa.BinOp)
+				if !ok || cmp.Op != token.LSS {
+					continue
+				}
+				if c, ok := cmp.Y.(*ssa.Call); ok {
+					if b, ok := c.Call.Value.(*ssa.Builtin); ok && b.Name() == "len" && len(c.Call.Args) == 1 {
+						if v, ok := env.fr.vals[c.Call.Args[0]]; ok && v.T.S != "" {
+							return v
+						}
+					}
+				}
+			}
+		}
+		unsupported("ranged(%d): loop %d is not a range over a slice", args[0].Int, args[0].Int)
+	case "prev":
+		// prev(K, e): the value of e at the head of loop K in this iteration
+		if len(args) != 2 || args[0].Op != "lit.int" {
+			unsupported("prev(K, e) takes a loop ordinal and an expression")
+		}
+		k := int(args[0].Int)
+		hs := env.prevs[k]
+		if hs == nil {
+			unsupported("prev(%d, ...) outside loop %d", k, k)
+		}
+		n := *env
+		n.cur = hs
+		n.inOld = false
+		n.reads, n.readIdx = nil, nil
+		n.outer = env
+		return w.eval(&n, args[1])
+	case "now":
+		// now(e) inside prev(K, ...): e in the state the enclosing clause is evaluated in
+		if env.outer == nil {
+			return ev(0)
+		}
+		return w.eval(env.outer, args[0])
 	case "len":
 		x := ev(0)
 		switch x.T.Sort {
